@@ -111,6 +111,11 @@ fn body<const B: usize, const L: usize>(c: &Case, rec: &mut Rec) -> R {
     chk!(rec, "saturating_add", a.saturating_add(b), if add_of { max } else { add_w });
     chk!(rec, "add", a + b, add_w);
     chk!(rec, "add_assign", { let mut x = a; x += b; x }, add_w);
+    // the six operator shapes are separate impls (value/reference operands, assign forms)
+    chk!(rec, "add(&,val)", &a + b, add_w);
+    chk!(rec, "add(val,&)", a + &b, add_w);
+    chk!(rec, "add(&,&)", &a + &b, add_w);
+    chk!(rec, "add_assign(&)", { let mut x = a; x += &b; x }, add_w);
 
     let r = rec.no_panic("overflowing_sub", catch(|| a.overflowing_sub(b)))?;
     rec.eqc("overflowing_sub", "value_wrong", &r.0, &sub_w)?;
@@ -120,6 +125,10 @@ fn body<const B: usize, const L: usize>(c: &Case, rec: &mut Rec) -> R {
     chk!(rec, "saturating_sub", a.saturating_sub(b), if sub_of { zero } else { sub_w });
     chk!(rec, "sub", a - b, sub_w);
     chk!(rec, "sub_assign", { let mut x = a; x -= b; x }, sub_w);
+    chk!(rec, "sub(&,val)", &a - b, sub_w);
+    chk!(rec, "sub(val,&)", a - &b, sub_w);
+    chk!(rec, "sub(&,&)", &a - &b, sub_w);
+    chk!(rec, "sub_assign(&)", { let mut x = a; x -= &b; x }, sub_w);
 
     let r = rec.no_panic("overflowing_neg", catch(|| a.overflowing_neg()))?;
     rec.eqc("overflowing_neg", "value_wrong", &r.0, &neg_w)?;
@@ -141,6 +150,12 @@ fn body<const B: usize, const L: usize>(c: &Case, rec: &mut Rec) -> R {
     rec.class_if(total >= m, "sum_wraps");
     chk!(rec, "sum_by_value", items.iter().copied().sum::<U<B, L>>(), sum_e);
     chk!(rec, "sum_by_ref", items.iter().sum::<U<B, L>>(), sum_e);
+    // iterator shapes whose size_hint is not exact (lower bound 0), chained and owned iterators
+    chk!(rec, "sum(filter)", items.iter().filter(|_| true).sum::<U<B, L>>(), sum_e);
+    chk!(rec, "sum(from_fn)", { let mut it = items.iter().copied(); core::iter::from_fn(move || it.next()).sum::<U<B, L>>() }, sum_e);
+    chk!(rec, "sum(chain)", items[..1].iter().chain(items[1..].iter()).sum::<U<B, L>>(), sum_e);
+    chk!(rec, "sum(into_iter)", items.clone().into_iter().sum::<U<B, L>>(), sum_e);
+    chk!(rec, "sum(rev)", items.iter().rev().sum::<U<B, L>>(), sum_e);
     let empty: Vec<U<B, L>> = vec![];
     chk!(rec, "sum_empty", empty.iter().sum::<U<B, L>>(), zero);
     Ok(())
@@ -150,7 +165,7 @@ fn body<const B: usize, const L: usize>(c: &Case, rec: &mut Rec) -> R {
 fn main() {
     let spec = PropSpec {
         id: "C01",
-        rule_text: "operand pairs (a,b) per width from 3 generator classes (independent boundary-alphabet values; b = 2^BITS - a + {-2..2}; b = a + {-2..2}) plus 0..5 extra alphabet values for iterator sums; exhaustive enumeration of all pairs for BITS <= 8. Oracle: num-bigint a+b, a-b, -a reduced mod 2^BITS and the exact overflow predicates. Non-trivial: a carry or borrow crosses a limb boundary, or the unreduced result lies outside [0,2^BITS), or (non-aligned width) the pre-mask top limb exceeds MASK; distinct by (rule,width,a,b).",
+        rule_text: "operand pairs (a,b) per width from 3 generator classes (independent boundary-alphabet values; b = 2^BITS - a + {-2..2}; b = a + {-2..2}) plus 0..5 extra alphabet values for iterator sums (slice, copied, filter, from_fn, chain, into_iter, rev iterators); + and - through all six operator shapes; exhaustive enumeration of all pairs for BITS <= 8. Oracle: num-bigint a+b, a-b, -a reduced mod 2^BITS and the exact overflow predicates. Non-trivial: a carry or borrow crosses a limb boundary, or the unreduced result lies outside [0,2^BITS), or (non-aligned width) the pre-mask top limb exceeds MASK; distinct by (rule,width,a,b).",
         assumptions: vec![
             "num-bigint arithmetic is correct (oracle)",
             "x86-64 little-endian target; fixed width grid",
